@@ -46,6 +46,12 @@ fn cmp<P: PartialEq + std::fmt::Debug>(got: &quake::Response<P>, exp: &quake::Re
 
 impl Check for C05 {
     fn id(&self) -> &'static str { "C05" }
+    fn miri_plan(&self, tier: Tier) -> Option<Vec<(u64, u64)>> {
+        if tier != Tier::Thorough {
+            return None;
+        }
+        Some((0 .. 16).map(|i| (i * 30, 30)).collect())
+    }
     fn rule(&self) -> String {
         "random Quake 1/2/3 status replies (alternate key spellings, 0-64 player lines, quoted and unquoted names, optional address, trailing newline present/absent) encoded by an independent model; the query must return the named variables, one player per line with that line's fields, players_online = number of lines, and the other variables unchanged. non-trivial = Ok and equal; distinct by datagram bytes".into()
     }
